@@ -189,8 +189,46 @@ def bi_str_split_once(eng, st, args, d, r, callee=''):
     if k < 0: return ('value', En('Option', S(0, 'isize'), {0: ()}))
     return ('value', En('Option', S(1, 'isize'), {1: (Agg('tuple', (PyStr(s[:k]), PyStr(s[k + len(pat):]))),)}))
 
+def bi_str_split_inclusive(eng, st, args, d, r, callee=''):
+    s = sval(args[0]); b = args[1]
+    pat = chr(b.v) if isinstance(b, S) else sval(b)
+    parts = []; cur = ''
+    i = 0
+    while i < len(s):
+        if s.startswith(pat, i): cur += pat; parts.append(cur); cur = ''; i += len(pat)
+        else: cur += s[i]; i += 1
+    if cur: parts.append(cur)
+    return ('value', Agg('VecIntoIter', (VecV(S(len(parts), 'usize'), len(parts), [PyStr(p) for p in parts]), S(0, 'usize'))))
+
+def bi_str_lines(eng, st, args, d, r, callee=''):
+    parts = sval(args[0]).split('\n')
+    if parts and parts[-1] == '': parts = parts[:-1]
+    return ('value', Agg('VecIntoIter', (VecV(S(len(parts), 'usize'), len(parts), [PyStr(p) for p in parts]), S(0, 'usize'))))
+
+def bi_slice_split_last(eng, st, args, d, r, callee=''):
+    rf = args[0]; v = E.vec_of(eng, st, rf); n = v.len.v
+    if n == 0: return ('value', En('Option', S(0, 'isize'), {0: ()}))
+    c = st.new_cell(VecV(S(n - 1, 'usize'), n - 1, v.el[:n - 1]))
+    return ('value', En('Option', S(1, 'isize'), {1: (Agg('tuple', (Ref(rf.cell, rf.path + (('i', S(n - 1, 'usize')),)), Ref(c, ()))),)}))
+
+def bi_slice_split_first(eng, st, args, d, r, callee=''):
+    rf = args[0]; v = E.vec_of(eng, st, rf); n = v.len.v
+    if n == 0: return ('value', En('Option', S(0, 'isize'), {0: ()}))
+    c = st.new_cell(VecV(S(n - 1, 'usize'), n - 1, v.el[1:n]))
+    return ('value', En('Option', S(1, 'isize'), {1: (Agg('tuple', (Ref(rf.cell, rf.path + (('i', S(0, 'usize')),)), Ref(c, ()))),)}))
+
+def bi_slice_is_empty(eng, st, args, d, r, callee=''):
+    return ('value', S(E.vec_of(eng, st, args[0]).len.v == 0, 'bool'))
+
+def bi_slice_first(eng, st, args, d, r, callee=''):
+    rf = args[0]; v = E.vec_of(eng, st, rf)
+    if v.len.v == 0: return ('value', En('Option', S(0, 'isize'), {0: ()}))
+    return ('value', En('Option', S(1, 'isize'), {1: (Ref(rf.cell, rf.path + (('i', S(0, 'usize')),)),)}))
+
 def install():
     B = E.BUILTIN_METHODS
+    B[('str', 'split_inclusive')] = bi_str_split_inclusive; B[('str', 'lines')] = bi_str_lines; B[('str', 'clone')] = E.bi_clone
+    B[('Vec', 'last_mut')] = bi_slice_last
     B[('str', 'eq')] = bi_str_eq; B[('str', 'ne')] = bi_str_ne
     B[('str', 'ends_with')] = bi_str_pred(lambda s, p: s.endswith(p)); B[('str', 'starts_with')] = bi_str_pred(lambda s, p: s.startswith(p))
     B[('str', 'contains')] = bi_str_pred(lambda s, p: p in s)
@@ -205,4 +243,5 @@ def install():
     for h in ('[IndentedBlockState]', '[&str]'):
         B[(h, 'len')] = bi_slice_len; B[(h, 'last')] = bi_slice_last; B[(h, 'last_mut')] = bi_slice_last
         B[(h, 'iter')] = bi_slice_iter; B[(h, 'index')] = bi_slice_range; B[(h, 'into_iter')] = bi_slice_iter
+        B[(h, 'split_last')] = bi_slice_split_last; B[(h, 'split_first')] = bi_slice_split_first; B[(h, 'is_empty')] = bi_slice_is_empty; B[(h, 'first')] = bi_slice_first
     B[('Range', 'into_iter')] = E.bi_identity
